@@ -879,9 +879,14 @@ fn join_chunks(chunks: Vec<Chunk>, options: &FormattingOptions) -> String {
                     // If the line only consists of comments, move them to the 'code' column
                     if line.len() > options.whitespace.label_margin + options.whitespace.code_margin
                     {
-                        let (label_code, comment) = line.split_at(
-                            options.whitespace.label_margin + options.whitespace.code_margin,
-                        );
+                        // The comment column is a byte offset: when it falls inside a multi-byte character,
+                        // split in front of that character instead of panicking.
+                        let mut split =
+                            options.whitespace.label_margin + options.whitespace.code_margin;
+                        while !line.is_char_boundary(split) {
+                            split -= 1;
+                        }
+                        let (label_code, comment) = line.split_at(split);
                         if label_code.trim().is_empty() {
                             line = format!(
                                 "{:<width$}{}",
